@@ -15,8 +15,8 @@ GROUPS = [
     R('rep_extrema_lattice', 'get_extrema', 'h_rep_extrema', unwind=3, apply_loop_contracts=False, loop_contracts_for=[],
       defines={'VF_LATTICE_ONLY': 1}, timeout=900,
       bound='Rectangular and Regular kinds: loop-free, all column/row counts including 0 and 1'),
-    R('rep_extrema', 'get_extrema', 'h_rep_extrema', unwind=None, unwindset={'Repetition__get_extrema.2': 1}, tier='thorough', timeout=3600,
-      bound='lattice kinds loop-free (all column/row counts incl. 0 and 1); ExplicitX/ExplicitY coordinate loops closed by loop contracts (any list length); kind Explicit (offset list) not covered'),
+    # full get_extrema incl. the ExplicitX/ExplicitY coordinate loops (loop contracts in contracts/repetition.ct):
+    # undecided after 20 min; not claimed.
 ]
 TRUSTED_BASE = ['clang 14 AST', 'tools/cxx2c.py lowering', 'cbmc 6.11.0 (dfcc + SAT)', 'side-car contracts']
 ASSUMPTIONS = ['double multiplication/addition in the lattice corner formulas are uninterpreted (same expression of the same inputs); comparisons are IEEE, bit-precise',
